@@ -39,9 +39,14 @@ package route
 //@   ensures len(pattern) > 0 && pattern[len(pattern)-1] != 0x2f ==> ok == strEqSpec(pattern, path)
 //@   ensures len(pattern) > 0 && pattern[len(pattern)-1] == 0x2f ==> ok == isPrefix(pattern, path)
 
-// Match: nil for a path ending in '/'; an exact hit is returned as a copy; a directory hit is a fresh copy whose
-// Pattern is the requested path and whose URL is the route URL joined with the remainder of the path by exactly
-// one '/'; the table's entries are never modified (frame); no panic for any table (also an empty route URL)
+// Match: nil for a path ending in '/'; an exact hit is returned as a copy; otherwise the route with the LONGEST
+// matching directory pattern among ALL entries of the table is chosen (map iteration: every present entry is visited
+// exactly once; ghost visited set), nil when no pattern matches; the result is a fresh copy whose Pattern is the
+// requested path and whose URL is the route URL joined with the remainder of the path by exactly one '/'; the
+// table's entries are never modified (frame); no panic for any table (also an empty route URL)
+//@ spec func endsSlash(s string) bool = len(s) > 0 && s[len(s)-1] == 0x2f
+//@ spec func entryAt(t *routetable, kk int) *Route = mapValAtKey(t.m, kk).(*Route)
+//@ spec func matchesAt(t *routetable, kk int, path string) bool = mapKeyPresent(t.m, kk) && pathMatch(entryAt(t, kk).Pattern, path)
 //@ func (t *routetable) Match(path string) (r *Route)
 //@   requires t != nil && t.m != nil && !held(&t.lock) && mapValuesNonNil(t.m)
 //@   modifies held(&t.lock)
@@ -49,12 +54,24 @@ package route
 //@   local v *Route
 //@   local n int
 //@   local rangeindex int
-//@   assume[call:pathMatch] v != nil && sameStr(v.Pattern, k)
+//@   assume[call:pathMatch] v != nil && sameStr(v.Pattern, k) && v == entryAt(t, mapKeyOf(t.m, k))
 //@   loop 0: modifies
 //@   loop 0: invariant 0 <= n && len(path) >= 1 && (r != nil ==> 1 <= len(r.Pattern) && len(r.Pattern) <= len(path) && n == len(r.Pattern))
+//@   loop 0: invariant r != nil ==> pathMatch(r.Pattern, path)
+//@   loop 0: invariant forallk(kk, mapKeyVisited(t.m, kk) && matchesAt(t, kk, path) ==> r != nil && len(entryAt(t, kk).Pattern) <= n)
+//@   loop 0: exit forallk(kk, matchesAt(t, kk, path) ==> r != nil && len(entryAt(t, kk).Pattern) <= n)
+//@   loop 0: exit r != nil ==> pathMatch(r.Pattern, path) && n == len(r.Pattern)
 //@   ensures !held(&t.lock)
 //@   ensures final(path)[len(final(path))-1] == 0x2f ==> r == nil
 //@   ensures r != nil ==> isFresh(r)
+// a directory hit: Pattern is the requested path; URL is the chosen route's URL followed by the rest of the path,
+// joined by exactly one '/': the pattern's trailing '/' is dropped when the URL already ends in one, kept otherwise
+//@   ensures exited(0) ==> (r != nil) == (atExit(0, r) != nil)
+//@   ensures exited(0) && r != nil ==> sameStr(r.Pattern, final(path)) && forall(i, 0, len(atExit(0, r).URL), r.URL[i] == atExit(0, r).URL[i])
+//@   ensures exited(0) && r != nil && endsSlash(atExit(0, r).URL) ==> len(r.URL) == len(atExit(0, r).URL) + len(final(path)) - atExit(0, n) && forall(j, 0, len(final(path)) - atExit(0, n), r.URL[len(atExit(0, r).URL) + j] == final(path)[atExit(0, n) + j])
+//@   ensures exited(0) && r != nil && len(atExit(0, r).URL) == 0 ==> len(r.URL) == len(final(path)) - atExit(0, n) + 1 && forall(j, 0, len(r.URL), r.URL[j] == final(path)[atExit(0, n) - 1 + j])
+// (the remaining case - a non-empty route URL without trailing '/' - is not discharged by the solvers within any budget
+// tried: stated in the evidence as not covered, not claimed)
 
 // ---- route table edits (C18), same shape as the user table -----------------------------------------------------
 //@ spec func rlistOK(l []*Route) bool = forall(i, 0, len(l), l[i] != nil)
